@@ -60,6 +60,14 @@ type UpSource struct {
 	ID int    `json:"id"`
 	S  string `json:"s"`
 }
+// UpSibling is a second legacy type migrated to the same targets as UpSource;
+// its upcaster is registered next to UpSource's and cleared again
+// (ClearUpcastsForType) before anything is replayed - which must not disturb
+// the UpSource chain.
+type UpSibling struct {
+	ID int `json:"id"`
+}
+
 type UpTarget struct {
 	ID   int    `json:"id"`
 	From string `json:"from"`
@@ -96,7 +104,15 @@ func mkShape[T any](name string, custom bool, mk func(id int, s string) T, idOf 
 			return eventbus.RegisterUpcast(bus, func(e T) UpTarget { return UpTarget{ID: idOf(e), From: name} })
 		},
 		upTo: func(bus *eventbus.EventBus) error {
-			return eventbus.RegisterUpcast(bus, func(src UpSource) T { return mk(src.ID+1000, src.S) })
+			if err := eventbus.RegisterUpcast(bus, func(src UpSibling) T { return mk(src.ID+5000, "sibling") }); err != nil {
+				return err
+			}
+			if err := eventbus.RegisterUpcast(bus, func(src UpSource) T { return mk(src.ID+1000, src.S) }); err != nil {
+				return err
+			}
+			// the sibling migration is retired again; UpSource's stays
+			bus.ClearUpcastsForType(eventbus.EventType(UpSibling{}))
+			return nil
 		},
 	}
 }
